@@ -817,14 +817,16 @@ func (r *yieldRewriter) rewriteReturnAndForSwitchInitStmtInYieldFun(body *ast.Bl
 }
 
 // splitMixedDefine rewrites 'p, q := e1, e2' where p already exists in the block
-// (so the statement assigns p and declares only q) into a statement that declares
-// new variables only, followed by plain assignments:
+// (so the statement assigns p and declares only q) into statements that keep p's
+// variable when they end up in the scope of a continuation thunk:
 //
+//	ʌ1 := p
 //	ʌ1, q := e1, e2
 //	p = ʌ1
 //
-// A constant (or nil) operand is assigned directly ('p = e1'), so that it is still
-// converted to p's type.
+// The temporary is declared from p, so it has p's type and an untyped operand
+// (a constant, nil, a comparison) is converted exactly as in the source; the
+// first two statements always stay next to each other in one block.
 func (r *yieldRewriter) splitMixedDefine(c *astutil.Cursor, n *ast.AssignStmt) {
 	info := r.pkg.TypeInfo()
 	reused := func(e ast.Expr) (*ast.Ident, bool) {
@@ -837,38 +839,20 @@ func (r *yieldRewriter) splitMixedDefine(c *astutil.Cursor, n *ast.AssignStmt) {
 		return id, !defined && used
 	}
 
-	var after []ast.Stmt
-	paired := len(n.Lhs) == len(n.Rhs)
-	var lhs, rhs []ast.Expr
+	var before, after []ast.Stmt
 	for i, l := range n.Lhs {
 		id, is := reused(l)
 		if !is {
-			lhs = append(lhs, l)
-			if paired {
-				rhs = append(rhs, n.Rhs[i])
-			}
 			continue
-		}
-		if paired {
-			if tv, ok := info.Types[n.Rhs[i]]; ok && (tv.Value != nil || tv.IsNil()) {
-				after = append(after, X.Assign(token.ASSIGN, id, n.Rhs[i]))
-				continue
-			}
 		}
 		r.tmpCnt++
 		tmp := X.Ident(cstYieldFromRangeVar + strconv.Itoa(r.tmpCnt))
-		lhs = append(lhs, tmp)
-		if paired {
-			rhs = append(rhs, n.Rhs[i])
-		}
+		n.Lhs[i] = tmp
+		before = append(before, X.Define(tmp, X.Ident(id.Name)))
 		after = append(after, X.Assign(token.ASSIGN, id, tmp))
 	}
-	if len(after) == 0 {
-		return
-	}
-	n.Lhs = lhs
-	if paired {
-		n.Rhs = rhs
+	for _, stmt := range before {
+		c.InsertBefore(stmt)
 	}
 	for i := len(after) - 1; i >= 0; i-- {
 		c.InsertAfter(after[i])
